@@ -3,7 +3,7 @@
    long as the pilot has more nodes than tagged ones; otherwise the flag is dropped), and what schedule_task does
    with the colocation history and the set of tagged nodes. *)
 From Coq Require Import ZArith List Bool Lia Arith.
-From RP Require Import Sched.Model.
+From RP Require Import Sched.Model Sched.Oracle.
 Import ListNotations.
 Local Open Scope Z_scope.
 
@@ -224,3 +224,28 @@ Example exclusive_nonvacuous :
     = inr (1%nat, [(7, [0]); (8, [1; 1])], [0; 1], Some [mkSlot 1 [0%nat] [] 0 0; mkSlot 1 [1%nat] [] 0 0])
   /\ zlookup 8 (colo ex_state) = None /\ (length (tagged ex_state) < length (nodes ex_state))%nat.
 Proof. vm_compute. repeat split; auto. Qed.
+
+(* the oracle's clause exclusive_tag_nodes, evaluated with the model's own tag records and tagged set, holds on
+   every grant of the model: the clause asks nothing the theorem does not give *)
+Theorem excl_clause_holds_on_model_grant c s t off co tg sl :
+  schedule_task c s t = inr (off, co, tg, Some sl) ->
+  c02_excl_bit (colo s) (tagged s) (length (nodes s)) t sl = true.
+Proof.
+  intro H. unfold c02_excl_bit.
+  destruct (r_colo t) as [tag|] eqn:Ec; [|reflexivity].
+  destruct (zlookup tag (colo s)) eqn:Ez; [reflexivity|].
+  destruct (r_excl t) eqn:Ee; [|reflexivity]. cbn [andb].
+  destruct (length (tagged s) <? length (nodes s))%nat eqn:El; [|reflexivity].
+  apply Nat.ltb_lt in El. apply forallb_forall. intros x Hx.
+  rewrite (exclusive_avoids_tagged c s t off co tg sl H tag Ec Ez Ee El x Hx). reflexivity.
+Qed.
+
+Theorem colo_clause_holds_on_model_grant c s t off co tg sl :
+  schedule_task c s t = inr (off, co, tg, Some sl) -> c02_colo_bit (colo s) t sl = true.
+Proof.
+  intro H. unfold c02_colo_bit.
+  destruct (r_colo t) as [tag|] eqn:Ec; [|reflexivity].
+  destruct (zlookup tag (colo s)) as [h|] eqn:Ez; [|reflexivity].
+  apply forallb_forall. intros x Hx.
+  exact (known_tag_stays_on_its_nodes c s t off co tg sl H tag h Ec Ez x Hx).
+Qed.
